@@ -81,7 +81,10 @@ func cleanString(str string) string {
 	if str[0] == byte(0) {
 		str = str[1:]
 	}
-	if str[len(str)-1] == byte(0) {
+	if len(str) > 0 && str[len(str)-1] == byte(0) {
+		if len(str) < 2 {
+			return ""
+		}
 		str = str[0 : len(str)-2]
 	}
 	return str
